@@ -29,9 +29,19 @@ type LogClient struct {
 	FailErr  error
 	OnWrite  func(rec WriteRec) // called after every successful write
 	sequence int
+	// FailGetN > 0: the FailGetN-th Get (1-based) of an object whose kind is not ConfigMap fails with an internal
+	// error (NOT NotFound); every other Get succeeds.  0 = disabled.  GetFailed reports whether it happened.
+	FailGetN  int
+	GetFailed bool
+	getSeq    int
 	// call-level faults (reads included): FailCallN > 0 makes the FailCallN-th API call of any kind (Get, List and the
 	// mutating calls, counted together, 1-based) fail with an InternalError — exactly that one call, later calls work.
 	FailCallN int
+	// ConflictAtWrite > 0: the ConflictAtWrite-th mutating call (1-based, counted over the client's life) fails ONCE with a
+	// 409 Conflict - "somebody else wrote the object in between" -, every other call works (a retry succeeds).
+	ConflictAtWrite int
+	OnConflict      func(rec WriteRec) // called when that conflict is injected, before the call returns: the concurrent writer
+	writesSeen      int
 	Calls     int    // API calls seen so far (reads and writes)
 	FaultHit  string // "" or a description of the call that was failed
 }
@@ -56,9 +66,17 @@ func (l *LogClient) callFault(what string) error {
 	return nil
 }
 
+// Get counts the call (FailCallN) and, separately, the reads of non-ConfigMap objects (FailGetN).
 func (l *LogClient) Get(ctx context.Context, key client.ObjectKey, obj client.Object, opts ...client.GetOption) error {
 	if err := l.callFault("get " + kindOf(l.Scheme(), obj) + " " + key.String()); err != nil {
 		return err
+	}
+	if l.FailGetN > 0 && kindOf(l.Scheme(), obj) != "ConfigMap" {
+		l.getSeq++
+		if l.getSeq == l.FailGetN {
+			l.GetFailed = true
+			return apierrors.NewInternalError(fmt.Errorf("injected read fault at get %d (%s %s)", l.getSeq, kindOf(l.Scheme(), obj), key))
+		}
 	}
 	return l.Client.Get(ctx, key, obj, opts...)
 }
@@ -89,6 +107,16 @@ func (l *LogClient) pre(verb string, obj client.Object) (WriteRec, error) {
 		rec.Err = true
 		l.Log = append(l.Log, rec)
 		return rec, err
+	}
+	l.writesSeen++
+	if l.ConflictAtWrite > 0 && l.writesSeen == l.ConflictAtWrite {
+		rec.Err = true
+		l.Log = append(l.Log, rec)
+		l.FaultHit = "conflict:" + verb + " " + rec.Kind + " " + rec.Key
+		if l.OnConflict != nil {
+			l.OnConflict(rec)
+		}
+		return rec, apierrors.NewConflict(schema.GroupResource{Resource: "injected"}, rec.Key, fmt.Errorf("injected conflict at write %d", l.writesSeen))
 	}
 	idx := l.sequence
 	l.sequence++
